@@ -22,7 +22,7 @@ struct PStep {
 }
 
 /// (proj name, PROJ args, geodesy args)
-const KINDS: [(&str, &str, &str); 11] = [
+const KINDS: [(&str, &str, &str); 13] = [
     ("cart", "ellps=intl", "ellps=intl"),
     ("helmert", "x=3 y=5 z=7", "x=3 y=5 z=7"),
     ("utm", "zone=32", "zone=32"),
@@ -34,9 +34,19 @@ const KINDS: [(&str, &str, &str); 11] = [
     ("lcc", "lat_1=33 lat_2=45 lon_0=10", "lat_1=33 lat_2=45 lon_0=10"),
     ("merc", "lat_ts=56", "lat_ts=56"),
     ("cart", "a=6378160 rf=298.25", "ellps=6378160,298.25"),
+    // both renames in one step, k after and before the ellipsoid elements
+    ("tmerc", "lon_0=9 a=6378249.145 rf=293.465 k=0.9996", "lon_0=9 ellps=6378249.145,293.465 k_0=0.9996"),
+    ("tmerc", "k=0.9996 rf=293.465 lon_0=9 a=6378249.145", "lon_0=9 ellps=6378249.145,293.465 k_0=0.9996"),
 ];
 
-const GLOBALS: [(&str, &str); 3] = [("", ""), ("ellps=intl", "ellps=intl"), ("zone=33 x=9", "zone=33 x=9")];
+const GLOBALS: [(&str, &str); 5] = [
+    ("", ""),
+    ("ellps=intl", "ellps=intl"),
+    ("zone=33 x=9", "zone=33 x=9"),
+    // the renames apply to pipeline-level parameters too
+    ("k=0.9992", "k_0=0.9992"),
+    ("rf=298.3 a=6378245", "ellps=6378245,298.3"),
+];
 
 #[derive(Clone, Debug)]
 struct PProg {
@@ -44,7 +54,7 @@ struct PProg {
     pipeline_inv: bool,
     globals: usize,
     plus: u8,   // 0 none, 1 all, 2 mixed
-    layout: u8, // 0 single line, 1 newline per step, 2 comments + CRLF
+    layout: u8, // 0 single line, 1 newline per step, 2 comments + CRLF, 3 tab-indented lines, 4 comments containing a pipe character
     explicit_pipeline: bool,
     mod_first: bool, // modifier written before proj=
 }
@@ -102,7 +112,9 @@ fn render_proj(p: &PProg) -> String {
     match p.layout {
         0 => lines.join(" "),
         1 => lines.join("\n"),
-        _ => format!("# a PROJ pipeline\r\n{}\r\n", lines.join("   # trailing comment\r\n")),
+        2 => format!("# a PROJ pipeline\r\n{}\r\n", lines.join("   # trailing comment\r\n")),
+        3 => lines.join("\n\t"),
+        _ => format!("# geodesy: a | b\n{}\n", lines.join("   # was: x | y\n")),
     }
 }
 
@@ -261,11 +273,11 @@ fn minimise(p: &PProg, first: (String, Value)) -> (String, Value) {
     (best_err.0, d)
 }
 
-fn enumerate(rep: &Report, kinds: &[usize], len: usize, label: &str) {
+fn enumerate(rep: &Report, kinds: &[usize], len: usize, label: &str, keep: &(dyn Fn(&[usize]) -> bool + Sync)) {
     let step_variants: Vec<PStep> = kinds.iter().flat_map(|&k| (0..6u8).map(move |m| PStep { kind: k, modifier: m })).collect();
     let a = step_variants.len();
-    // options: pipeline_inv(2) x globals(3) x plus(3) x layout(3) x explicit(2) x mod_first(2)
-    let opt_radix = [2usize, 3, 3, 3, 2, 2];
+    // options: pipeline_inv(2) x globals(5) x plus(3) x layout(5) x explicit(2) x mod_first(2)
+    let opt_radix = [2usize, GLOBALS.len(), 3, 5, 2, 2];
     let nopt = product(&opt_radix);
     let total = a.pow(len as u32) * nopt;
     let outcomes = Mutex::new(HashSet::new());
@@ -276,6 +288,9 @@ fn enumerate(rep: &Report, kinds: &[usize], len: usize, label: &str) {
         let single = len == 1 && o[4] == 0;
         if single && (o[0] == 1 || o[1] != 0) {
             return; // no pipeline level without proj=pipeline
+        }
+        if (len > 1 && o[4] == 1) || !keep(&o) {
+            return; // (several steps are always an explicit pipeline: the option would only duplicate programs)
         }
         if len == 1 && steps[0].modifier >= 2 {
             // omit_* is meaningless outside a pipeline; for a ONE-step `proj=pipeline` the hand-written
@@ -320,6 +335,11 @@ fn refusals_and_passthrough(rep: &Report) {
         "proj=pipeline step proj=utm zone=32 step init=foo:bar",
         "+proj=pipeline +step +proj=pipeline +step +proj=utm +zone=32",
         "proj=pipeline step proj=utm zone=32 step proj=pipeline step proj=noop",
+        // an init clause anywhere in a step
+        "proj=utm zone=32 init=epsg:25832",
+        "+proj=utm +zone=32 +init=epsg:25832",
+        "proj=pipeline step proj=utm zone=32 init=epsg:25832",
+        "proj=pipeline init=epsg:4326 step proj=utm zone=32",
     ] {
         rep.eval(1);
         let mut plain = Plain::default();
@@ -379,13 +399,18 @@ pub fn run(tier: Tier) -> Report {
     rep.assume("the shared operators mean the same in both syntaxes (only the translation is judged); the reference rendering puts globals before step-local values (last wins)");
     let wd = enter_private_workdir();
     let all: Vec<usize> = (0..KINDS.len()).collect();
-    enumerate(&rep, &all, 1, "all^1");
-    enumerate(&rep, &all, 2, "all^2");
+    let every = |_: &[usize]| true;
+    enumerate(&rep, &all, 1, "all^1", &every);
     match tier {
-        Tier::Quick => enumerate(&rep, &[1, 4], 3, "two^3"),
+        Tier::Quick => {
+            // o = [pipeline inv, globals, plus style, layout, explicit, modifier first]
+            enumerate(&rep, &all, 2, "all^2 (layouts 0,2,3,4)", &|o: &[usize]| o[3] != 1);
+            enumerate(&rep, &[1, 4], 3, "two^3 (no plus signs, layouts 0,3)", &|o: &[usize]| o[2] == 0 && (o[3] == 0 || o[3] == 3));
+        }
         Tier::Thorough => {
-            enumerate(&rep, &[0, 1, 2, 4, 5, 10], 3, "six^3");
-            enumerate(&rep, &[1, 4], 4, "two^4");
+            enumerate(&rep, &all, 2, "all^2", &every);
+            enumerate(&rep, &[0, 1, 2, 4, 5, 11], 3, "six^3", &|o: &[usize]| o[3] != 1);
+            enumerate(&rep, &[1, 4], 4, "two^4", &|o: &[usize]| o[2] != 2);
         }
     }
     refusals_and_passthrough(&rep);
